@@ -403,6 +403,18 @@ def apply_op(ps, op, objs, memo):
                 ps.clear()
         elif op['op'] == 'delete':
             del ps[name_of(op['id'])]
+        elif op['op'] == 'load':
+            # a query that caches: the identifier and everything it refers to that is not cached yet is read from the
+            # backend into NEW objects; they are registered under the tags base + identifier so that later operations
+            # of the case can use them as sub-templates
+            had = set(ps.temporary_storage)
+            try:
+                ps[name_of(op['id'])]
+            finally:
+                for nm in set(ps.temporary_storage) - had:
+                    m = re.fullmatch(r'n(\d+)', nm)
+                    if m:
+                        memo[str(op['base'] + int(m.group(1)))] = ps.temporary_storage[nm].serializable
         else:
             t = build(objs, op['t'], memo)
             if op['op'] == 'store':
